@@ -754,6 +754,13 @@ class SymInt:
     def __xor__(s, o):
         if isinstance(o, int) and not isinstance(o, bool) and o >= 0:
             return s + o - 2 * (s & o)
+        if isinstance(o, SymInt):
+            r = _xor_disjoint(s, o)
+            if r is None:
+                r = _xor_disjoint(o, s)
+            if r is None:
+                r = _bvop(s, o, lambda a, b: a ^ b)
+            return r
         raise Unsupported('symbolic ^ %r' % (o,))
     __rxor__ = __xor__
 
@@ -834,6 +841,39 @@ class SymInt:
 
     def __repr__(s):
         return 'SymInt(%s)' % s.t
+
+
+def _xor_disjoint(x, y):
+    """x ^ y for symbolic x, y >= 0 when x is a multiple of 2**k: the low k
+    bits are those of y, and the high part is x/2**k ^ y/2**k, which is
+    x/2**k itself when y < 2**k (decided by a branch) or an xor with a
+    constant when y/2**k has a single value on this path.  None if no such
+    split is found."""
+    if not ENG.valid(z3.And(x.t >= 0, y.t >= 0)):
+        return None
+    for k in (64, 32, 96, 16, 48, 80, 112, 8):
+        if not ENG.valid(x.t % (2 ** k) == 0):
+            continue
+        yh = y.t / (2 ** k)
+        if ENG.branch(yh == 0):
+            return x + y
+        u = ENG.unique_value(yh)
+        if u is None:
+            return None
+        return (wrapint(x.t / (2 ** k)) ^ u) * (2 ** k) + wrapint(
+            y.t % (2 ** k))
+    return None
+
+
+def _bvop(x, y, f, width=128):
+    """bit operation on two symbolic non-negative integers below 2**128
+    through bit-vectors (int2bv / bv2int); slow, last resort"""
+    for v in (x, y):
+        if not ENG.valid(z3.And(v.t >= 0, v.t < 2 ** width)):
+            raise Unsupported('bit operation on symbolic operands outside '
+                              '[0, 2**%d)' % width)
+    return wrapint(z3.BV2Int(f(z3.Int2BV(x.t, width),
+                               z3.Int2BV(y.t, width))))
 
 
 def syn_nonneg(t, depth=0):
